@@ -9,7 +9,13 @@ def parseMsg (i : Nat) (s : String) : Option Msg :=
   match (s.splitOn ",").map String.toNat? with
   | [some e, some r, some t, some h, some c] =>
     some { index := i, recv := r, ecu := e, tsDms := t, hasTs := h == 1, ctrlReq := c == 1 }
+  | [some e, some r, some t, some h, some c, some _boot] =>
+    some { index := i, recv := r, ecu := e, tsDms := t, hasTs := h == 1, ctrlReq := c == 1 }
   | _ => none
+
+/-- ground truth of a clean trace: the boot number of each message -/
+def parseBoots (line : String) : List Nat :=
+  (fields line ";").map fun p => match (p.splitOn ",").map nat! with | [_, _, _, _, _, b] => b | _ => 0
 
 def parseCase (line : String) : List Msg :=
   ((fields line ";").zipIdx.filterMap fun (p, i) => parseMsg i p)
@@ -104,5 +110,71 @@ def doLine (line : String) : String :=
     | none => "C05=FAIL:unparsable;C06=FAIL:unparsable;C07=FAIL:unparsable"
   let om := if s.panicked then "C05=PANIC;C06=PANIC;C07=PANIC" else oracle ms (observe s)
   s!"{mobs}\t{oi}\t{om}\t{branches ms s}"
+
+/-! ### C08: cleanly separated power cycles -/
+
+structure Boot where
+  ecu : Nat
+  boot : Nat
+  start : Nat      -- boot time + transport delay = reception time - timestamp (constant within a boot)
+  maxTs : Nat      -- largest timestamp (us)
+  n : Nat
+deriving Repr, DecidableEq
+
+def bootsOf (ms : List Msg) (bs : List Nat) : List Boot :=
+  (ms.zip bs).foldl (fun acc (m, b) =>
+    match acc.find? (fun x => x.ecu == m.ecu && x.boot == b) with
+    | some x => acc.map fun y => if y.ecu == m.ecu && y.boot == b then { y with maxTs := max y.maxTs m.tsUs, n := y.n + 1 } else y
+    | none => acc ++ [{ ecu := m.ecu, boot := b, start := m.recv - m.tsUs, maxTs := m.tsUs, n := 1 }]) []
+
+/-- the region in which exact detection is claimed (DESIGN.md, C08): the next boot starts after the end of the previous one,
+    or overlaps its end by less than the "slightly overlapping" window while the previous boot was longer than 10 s -/
+def c08Region (boots : List Boot) : Bool :=
+  boots.all fun b => boots.all fun b' =>
+    !(b.ecu == b'.ecu && b'.boot == b.boot + 1) ||
+    (let e := b.start + b.maxTs
+     b'.start > e || (b'.start ≤ e && b'.start + usPerSec * Gen.lcSlightOverlapSecs > e && e > b.start + usPerSec * Gen.lcMinLenForOverlapSecs))
+
+/-- exactly one lifecycle per boot per ECU, every message in the lifecycle of its boot, start = boot time + delay,
+    end = start + largest timestamp, count = number of messages of the boot -/
+def c08Exact (ms : List Msg) (bs : List Nat) (o : Obs) : Bool :=
+  let boots := bootsOf ms bs
+  let lcOf (i : Nat) : Nat := match o.out.find? (·.m.index == i) with | some x => x.lc | none => 0
+  o.out.length == ms.length && o.tbl.length == boots.length &&
+  boots.all fun b =>
+    let idx := ((ms.zip bs).filter fun (m, bb) => m.ecu == b.ecu && bb == b.boot).map (·.1.index)
+    match idx with
+    | [] => true
+    | i0 :: _ =>
+      let l := lcOf i0
+      idx.all (fun i => lcOf i == l) &&
+      (((ms.zip bs).filter fun (m, bb) => lcOf m.index == l)).all (fun (m, bb) => m.ecu == b.ecu && bb == b.boot) &&
+      o.tbl.any fun t => t.id == l && t.ecu == b.ecu && t.n == b.n && t.start == b.start && t.endT == b.start + b.maxTs
+
+def doLine8 (line : String) : String :=
+  let (c, impl) := match line.splitOn "\t" with
+    | [c, i] => (c, i)
+    | [c] => (c, "")
+    | _ => ("", "")
+  let ms := parseCase c
+  let bs := parseBoots c
+  let s := run ms
+  let mobs := if s.panicked then "PANIC" else canonObs ms (observe s)
+  let inReg := c08Region (bootsOf ms bs)
+  let orc (o : Option Obs) : String :=
+    match o with
+    | none => "C08=FAIL:unparsable"
+    | some o =>
+      if c08Exact ms bs o then "C08=ok"
+      else if inReg then "C08=FAIL:clean-trace-in-claimed-region-not-detected-exactly"
+      else "C08=FAIL:clean-trace-outside-claimed-region-fused-or-split"
+  let oi := if impl == "" then "-" else if impl == "PANIC" then "C08=FAIL:panic" else orc (parseObs ms impl)
+  let nb := (bootsOf ms bs).length
+  let tags : List String :=
+    (if inReg then ["claimed-region"] else ["outside-region"]) ++ (if nb > (firstSeen (ms.map (·.ecu))).length then ["multi-boot"] else []) ++
+    (if (firstSeen (ms.map (·.ecu))).length > 1 then ["multi-ecu"] else []) ++
+    (if (observe s).tbl.any (·.resume) then ["resume-flagged"] else []) ++
+    (if ms.any (·.tsDms == 0) then ["first-ts-0"] else [])
+  s!"{mobs}\t{oi}\t{orc (if s.panicked then none else some (observe s))}\t{",".intercalate tags}"
 
 end Lcm
